@@ -18,7 +18,7 @@ func init() {
 	run.Register(&run.Property{
 		ID:    "C09",
 		Title: "Intersects and Distance agree with exact geometry and with Relate",
-		Rule: "cases = operand pairs over all 8x8 operand kinds (seven types incl. collections with empty members, typed empties) from D-small/D-large/D-gp, half of them with the second operand translated away by a lattice vector so that Distance takes its search path, plus triples for the triangle inequality; " +
+		Rule: "[added in rounds 9-11: collinear: two lineal operands on one line in 8 directions (touching, overlapping, nested, separated); payload-blind copies] cases = operand pairs over all 8x8 operand kinds (seven types incl. collections with empty members, typed empties) from D-small/D-large/D-gp, half of them with the second operand translated away by a lattice vector so that Distance takes its search path, plus triples for the triangle inequality; " +
 			"judged against exact intersects (arrangement) and exact minimum distance (rational squared distances, 200-bit square root). non-trivial = envelopes intersect or the indexed operand has >= 8 segments; distinct by operand WKB",
 		Assumptions: []string{"distance tolerance 1e-13*max(1,M) (about 450 ulps of the largest ordinate; the statement says a few ulps, the largest error observed on the unchanged tree is below 2 ulps), envelope bound slack 1e-12*M, triangle slack 3e-9*M — fixed in DESIGN.md before the check existed",
 			"near-degenerate pairs (clearance < 1e-9*M lattice / 1e-6*M general position) are excluded and counted"},
